@@ -276,6 +276,19 @@ def gen_history(rng, nmax=6, with_regen=False, ninv=None, with_pools=False):
                         put("build.ninja", text)
                 elif c < 0.9:
                     steps.append("touch %s" % hx(rng.choice(outs_flat)))
+                elif with_regen and rng.random() < 0.5:
+                    # structural edit through the generator's template: toggle an extra step at the front
+                    if info["builds"] and info["builds"][0].get("extra"):
+                        info["builds"].pop(0)
+                        info["outs_all"].pop(0)
+                    else:
+                        k_ = rng.randint(0, 99)
+                        info["builds"].insert(0, {"outs": ["x%d" % k_, "x%d.aux" % k_], "ex": [rng.choice(info["sources"])], "im": [], "oo": [],
+                                                  "opts": [], "tag": "x", "extra": True})
+                        info["outs_all"].insert(0, ["x%d" % k_, "x%d.aux" % k_])
+                    outs_flat[:] = [o for os_ in info["outs_all"] for o in os_]
+                    text = manifest_text(info)
+                    put("rules.in" if with_regen == "include" else "manifest.in", text)
                 elif info.get("regen_oo"):
                     put("cfg.src", "cfg v%d\n" % rng.randint(1, 999))
                 elif info.get("default") and with_regen:
